@@ -904,3 +904,163 @@ Proof.
   - discriminate.
   - discriminate.
 Qed.
+
+(* ---- consequences ---- *)
+Theorem inv_reach s : reach s -> Inv s.
+Proof.
+  apply invariant_lift.
+  - intros ? ->. apply Inv_init.
+  - intros s0 [t e] s1 HI Hs. cbn in Hs. eapply step_preserves; eauto.
+Qed.
+
+Lemma lsum_zero f l : (forall u, In u l -> 0 <= f u) -> lsum f l = 0 -> forall u, In u l -> f u = 0.
+Proof.
+  induction l as [|x l IH]; intros H E u Hu; [contradiction|]. cbn [lsum] in E.
+  pose proof (H x (or_introl eq_refl)). assert (0 <= lsum f l) by (apply lsum_nonneg; intros; apply H; right; auto).
+  destruct Hu as [->|Hu]; [lia|]. apply IH; auto; [intros; apply H; right; auto|lia].
+Qed.
+
+(* every index is handed to the work function at most once, only indices below n, and a callout ends only after it began *)
+Theorem each_index_once s i : reach s ->
+  (begun s i = 0 \/ begun s i = 1) /\ (ended s i = 0 \/ ended s i = 1) /\ ended s i <= begun s i /\
+  (begun s i = 1 -> 0 <= i < n) /\ (begun s i = 1 -> exists t, owner s i = Some t).
+Proof.
+  intros R. destruct (inv_reach s R) as (G & HT & HI). specialize (HI i). unfold index_inv, claimed in HI.
+  destruct (Z.leb_spec 0 i); destruct (Z.ltb_spec i (Z.min (index s) n)); cbn [andb] in HI;
+    try (destruct HI as (A & B & C); rewrite B, C; repeat split; auto; try lia; intros; lia).
+  destruct HI as (t & A & B & C). rewrite B, C.
+  destruct (pcs s t); cbn [bval eval_]; try (repeat split; auto; try lia; intros; exists t; auto);
+    destruct (Z.eqb_spec idx i); repeat split; auto; try lia; intros; try lia; exists t; auto.
+Qed.
+
+(* once the caller is past the event wait, every index has been invoked and every invocation has finished *)
+Lemma all_done s : reach s -> past_event (pcs s c) = true ->
+  forall i, 0 <= i < n -> begun s i = 1 /\ ended s i = 1.
+Proof.
+  intros R Hp i Hi. destruct (inv_reach s R) as (G & HT & HI).
+  pose proof (g_csig s G Hp) as Sd. pose proof (g_sig s G) as S. unfold sig_clause in S.
+  destruct (signaller s) as [g|]; [|destruct S; congruence]. destruct S as [Td _].
+  pose proof (g_todo s G) as Gt. pose proof (psum_pending_nonneg s HT) as Bp.
+  assert (Hc : claimed s = n /\ psum pending s = 0) by (unfold claimed in *; lia). destruct Hc as [Hc Hz].
+  assert (Hall : forall u, In u (parts s) -> pending (pcs s u) = 0).
+  { apply (lsum_zero (fun u => pending (pcs s u))); [intros u _; apply pending_nonneg, HT|exact Hz]. }
+  specialize (HI i). unfold index_inv in HI. rewrite Hc in HI.
+  destruct (Z.leb_spec 0 i); [|lia]. destruct (Z.ltb_spec i n); [|lia]. cbn [andb] in HI.
+  destruct HI as (t & A & B & C). rewrite B, C.
+  destruct (HT t) as (At & _ & Pin). unfold at_pc in At.
+  destruct (pcs s t) eqn:Hpc; cbn [bval eval_]; auto.
+  - destruct (Z.eqb_spec idx i); auto. exfalso.
+    assert (In t (parts s)) by (apply Pin; discriminate). specialize (Hall t H1). rewrite Hpc in Hall. cbn in Hall. lia.
+  - destruct (Z.eqb_spec idx i); auto. exfalso.
+    assert (In t (parts s)) by (apply Pin; discriminate). specialize (Hall t H1). rewrite Hpc in Hall. cbn in Hall. lia.
+Qed.
+
+Theorem returned_after_all s : reach s -> returned s = true ->
+  forall i, 0 <= i < n -> begun s i = 1 /\ ended s i = 1.
+Proof.
+  intros R Hr. destruct (inv_reach s R) as (G & _ & _). rewrite (g_ret s G) in Hr.
+  apply all_done; auto. destruct (pcs s c); try discriminate. reflexivity.
+Qed.
+
+(* the return of dispatch_apply_f (the RET event) is only enabled after every callout has ended *)
+Theorem return_after_all s t e s' : reach s -> gstep s t e = Some s' -> ev_kind e DVU_RET = true ->
+  t = c /\ forall i, 0 <= i < n -> begun s i = 1 /\ ended s i = 1.
+Proof.
+  intros R Hs Hk. unfold Apply.gstep in Hs. destruct (tstep n (t =? c) (pcs s t) e) as [p'|] eqn:Hts; [|discriminate].
+  unfold ev_kind in Hk. apply Z.eqb_eq in Hk.
+  destruct (pcs s t) eqn:Hpc; cbn [tstep] in Hts;
+    try discriminate;
+    try (unfold ev_site, ev_kind, ev_is in Hts; rewrite Hk in Hts; cbn in Hts; discriminate).
+  destruct (Z.eqb_spec t c) as [->|]; [|discriminate]. split; [reflexivity|].
+  apply all_done; auto. rewrite Hpc. reflexivity.
+Qed.
+
+(* the completion handshake needs no helper that has not started: while the caller waits, either the signal is about
+   to happen, or some participant that is already inside invoke2 still owes its subtraction from da_todo (and such
+   a participant is never blocked, see participant_enabled); a sleeping caller always has its wake-up coming *)
+Theorem terminates_without_helpers s : reach s -> waiting (pcs s c) = true ->
+  (sigd s = true /\ evt s = (if waited s then 0 else 1) /\
+     (slp s = Sleeping -> exists g, signaller s = Some g /\ pcs s g = PWake)) \/
+  (sigd s = false /\
+     ((exists g, signaller s = Some g /\ pcs s g = PSignal) \/
+      (exists t, In t (parts s) /\ t <> c /\ 0 < pending (pcs s t)))).
+Proof.
+  intros R Hw. destruct (inv_reach s R) as (G & HT & HI).
+  destruct (sigd s) eqn:Sd.
+  - left. split; [reflexivity|]. split.
+    + rewrite (g_evt s G), Sd. destruct (waited s); reflexivity.
+    + intros Hs. destruct (g_slp s G Hs) as [_ [X|X]]; [congruence|exact X].
+  - right. split; [reflexivity|].
+    pose proof (g_sig s G) as S. unfold sig_clause in S. destruct (signaller s) as [g|] eqn:Sg.
+    + left. exists g. split; [reflexivity|]. apply S. exact Sd.
+    + right. destruct S as [Td _].
+      destruct (HT c) as (_ & Ov & _). assert (Hov : over (pcs s c) = 1) by (destruct (pcs s c); try discriminate; reflexivity).
+      specialize (Ov Hov). pose proof (g_todo s G) as Gt. unfold claimed in Gt.
+      assert (Hp : 0 < psum pending s) by lia.
+      destruct (lsum_pos_exists _ _ Hp) as (t & Hin & Hpos). exists t. split; [exact Hin|]. split; [|exact Hpos].
+      intros ->. destruct (pcs s c); try discriminate; cbn in Hpos; lia.
+Qed.
+
+(* the record is freed at most once, exactly when the last unit of da_thr_cnt is given back, after every participant
+   has left invoke2; no access to the record after the free and no read of da_dc after the caller returned *)
+Theorem record_freed_once s : reach s ->
+  0 <= thrcnt s /\ (freed s = 0 \/ freed s = 1) /\ (freed s = 1 <-> thrcnt s = 0) /\ uaf s = false /\ dcbad s = false /\
+  (freed s = 1 -> Z.of_nat (length (parts s)) = T /\ forall t, holds (pcs s t) = 0).
+Proof.
+  intros R. destruct (inv_reach s R) as (G & HT & HI).
+  pose proof (g_thr s G) as Gth. pose proof (g_len s G) as Gl. pose proof (psum_holds_le s) as Bh.
+  pose proof (g_freed s G) as [F1 F2].
+  assert (Hf : freed s = 1 <-> thrcnt s = 0).
+  { split; intros H; [|auto]. destruct (Z.eq_dec (thrcnt s) 0); [auto|]. rewrite F2 in H by auto. discriminate. }
+  split; [lia|]. split; [destruct (Z.eq_dec (thrcnt s) 0); [right; auto|left; auto]|]. split; [exact Hf|].
+  split; [apply (g_uaf s G)|]. split; [apply (g_dcbad s G)|].
+  intros H. apply Hf in H. split; [lia|]. intros t.
+  assert (Hz : psum holds s = 0) by lia.
+  destruct (HT t) as (_ & _ & Pin).
+  destruct (pcs s t) eqn:Hpc; try reflexivity; exfalso;
+    (assert (Hin : In t (parts s)) by (apply Pin; discriminate));
+    pose proof (lsum_zero (fun u => holds (pcs s u)) (parts s) (fun u _ => proj1 (holds_range (pcs s u))) Hz t Hin) as Z0;
+    cbn beta in Z0; rewrite Hpc in Z0; discriminate Z0.
+Qed.
+
+(* every access to the record is made by a participant that still holds its unit of da_thr_cnt *)
+Theorem access_holds_unit s t : reach s -> holds (pcs s t) = 1 -> 1 <= thrcnt s /\ freed s = 0.
+Proof. intros R H. destruct (inv_reach s R) as (G & HT & _). destruct (alive s t G HT H) as (A & B & _). auto. Qed.
+
+(* the global model moves participants by the automaton used for trace conformance *)
+Lemma gstep_tstep s t e s' : gstep s t e = Some s' -> tstep n (t =? c) (pcs s t) e = Some (pcs s' t).
+Proof.
+  unfold Apply.gstep. destruct (tstep n (t =? c) (pcs s t) e) as [p'|]; [|discriminate]. intros Hs. f_equal.
+  destruct (pcs s t); cbv zeta in Hs;
+    repeat match type of Hs with
+    | (if ?b then _ else None) = Some _ => destruct b; [|discriminate]
+    end; try discriminate; injection Hs as <-; sp; rewrite upd_same; reflexivity.
+Qed.
+End Invoke.
+
+(* dispatch_apply_f(0, ...) returns at once *)
+Lemma zero_returns nested maxpar w ht os : apply_f_path 0 nested maxpar w ht os = PathReturn.
+Proof. reflexivity. Qed.
+
+(* a participant that is inside the claiming loop or on its way to the subtraction / signal / final decrement is never
+   blocked: in every state it has a step (the work function is assumed to return) *)
+Definition working (p : pc) : bool :=
+  match p with PFirst | PCall _ _ | PInCall _ _ | PNext _ | PSub _ | PSignal | PWake | PDec => true | _ => false end.
+Lemma participant_enabled n T c s t : working (pcs s t) = true -> exists e s', gstep n T c s t e = Some s'.
+Proof.
+  intros W. unfold gstep. destruct (pcs s t) eqn:Hpc; try discriminate W; cbn [tstep].
+  - exists (mkEv DV_ADD 2 0 8 8 (index s) 1 1). cbn [ea eb]. change (ev_site _ st_first OFF_INDEX && (1 =? 1)) with true. cbv iota.
+    rewrite Z.eqb_refl. eexists; reflexivity.
+  - exists (mkEv DVU_CALLOUT_BEGIN 0 0 0 0 idx 0 1). cbn [ea eb]. change (ev_kind _ DVU_CALLOUT_BEGIN) with true. rewrite Z.eqb_refl. cbn [andb].
+    eexists; reflexivity.
+  - exists (mkEv DVU_CALLOUT_END 0 0 0 0 idx 0 1). change (ev_kind _ DVU_CALLOUT_END) with true. cbv iota. eexists; reflexivity.
+  - exists (mkEv DV_ADD 0 0 8 8 (index s) 1 1). cbn [ea eb]. change (ev_site _ st_next OFF_INDEX && (1 =? 1)) with true. cbv iota.
+    rewrite Z.eqb_refl. eexists; reflexivity.
+  - exists (mkEv DV_SUB 3 0 16 8 (todo s) done 1). cbn [ea eb]. change (ev_site _ st_todo OFF_TODO) with true. rewrite !Z.eqb_refl. cbn [andb].
+    eexists; reflexivity.
+  - exists (mkEv DV_ADD 3 0 40 4 (evt s) 1 1). cbn [ea eb]. change (ev_site _ st_signal OFF_EVENT && (1 =? 1)) with true. cbv iota.
+    rewrite Z.eqb_refl. eexists; reflexivity.
+  - exists (mkEv DV_FUTEX_WAKE 0 0 40 0 1 0 1). change (ev_kind _ DV_FUTEX_WAKE) with true. cbv iota. eexists; reflexivity.
+  - exists (mkEv DV_SUB 3 0 48 4 (thrcnt s) 1 1). cbn [ea eb]. change (ev_site _ st_thrcnt OFF_THRCNT && (1 =? 1)) with true. cbv iota.
+    rewrite Z.eqb_refl. eexists; reflexivity.
+Qed.
